@@ -424,10 +424,10 @@ theorem C03_count_mismatch_fails_file {F} (ops : FloatOps F) (lex : LexCfg) (cfg
 /-- the recovery scan of `SDAI_Application_instance::STEPread`: whatever garbage stands before the closing `)` (anything
     without a `)` - and, for the scan that ends at a `;` outside a string literal, without apostrophe and `;`), the scan
     ends right after the `;` that follows it; either shape of the scan, inside or outside a string literal -/
-theorem recoverScan_spec (stop : Bool) (body : List Byte) (hb : ∀ x ∈ body, x ≠ 41 ∧ (stop = true → x ≠ 39 ∧ x ≠ 59))
+theorem recoverScan_spec (stop quotes : Bool) (body : List Byte) (hb : ∀ x ∈ body, x ≠ 41 ∧ (stop = true → x ≠ 39 ∧ x ≠ 59))
     (sp : List Byte) (hsp : sp.all isSpace = true) :
     ∀ (fuel : Nat) (q : Bool) (c : Byte) (l rest : List Byte) (sk : Bool), body.length + 2 ≤ fuel → c ≠ 41 →
-      recoverScan stop fuel q c (G l (body ++ 41 :: (sp ++ 59 :: rest)) sk) =
+      recoverScan stop quotes fuel q c (G l (body ++ 41 :: (sp ++ 59 :: rest)) sk) =
         .ok (G (59 :: (sp.reverse ++ 41 :: (body.reverse ++ l))) rest sk) := by
   induction body with
   | nil =>
@@ -465,8 +465,11 @@ theorem recoverScan_spec (stop : Bool) (body : List Byte) (hb : ∀ x ∈ body, 
         cases stop with
         | false => rfl
         | true => have := (hbq rfl).2; simpa using this
-      have e1' : (stop && (G (b :: l) (t ++ 41 :: (sp ++ 59 :: rest)) sk).good && b == 39) = false := by
-        simp only [G_good, Bool.and_true]; exact e1
+      have e1' : (stop && quotes && (G (b :: l) (t ++ 41 :: (sp ++ 59 :: rest)) sk).good && b == 39) = false := by
+        simp only [G_good, Bool.and_true]
+        cases quotes
+        · simp
+        · simpa using e1
       have e2' : (stop && (G (b :: l) (t ++ 41 :: (sp ++ 59 :: rest)) sk).good && b == 59 && !q) = false := by
         simp only [G_good, Bool.and_true, e2, Bool.false_and]
       simp only [e1', e2', Bool.false_eq_true, if_false]
@@ -509,12 +512,12 @@ theorem scanTo_semicolon (skipCmt : Bool) (body : List Byte)
       simp
 
 /-- **resynchronisation, recovery scan**: see `recoverScan_spec` -/
-theorem C03_recovery_scan_resynchronises (stop : Bool) (body : List Byte)
+theorem C03_recovery_scan_resynchronises (stop quotes : Bool) (body : List Byte)
     (hb : ∀ x ∈ body, x ≠ 41 ∧ (stop = true → x ≠ 39 ∧ x ≠ 59)) (sp : List Byte) (hsp : sp.all isSpace = true)
     (fuel : Nat) (q : Bool) (c : Byte) (l rest : List Byte) (sk : Bool) (hf : body.length + 2 ≤ fuel) (hc : c ≠ 41) :
-    recoverScan stop fuel q c (G l (body ++ 41 :: (sp ++ 59 :: rest)) sk) =
+    recoverScan stop quotes fuel q c (G l (body ++ 41 :: (sp ++ 59 :: rest)) sk) =
       .ok (G (59 :: (sp.reverse ++ 41 :: (body.reverse ++ l))) rest sk) :=
-  recoverScan_spec stop body hb sp hsp fuel q c l rest sk hf hc
+  recoverScan_spec stop quotes body hb sp hsp fuel q c l rest sk hf hc
 
 /-- the source as it is now: the recovery scan leaves the `;` (regenerated on every run) -/
 theorem C03_source_recovery_keeps_semicolon : Generated.rwCfg.recoveryKeepsSemicolon = true := by decide
@@ -533,7 +536,7 @@ theorem C03_too_many_parameters_confined {F} (env : Env F) (strict : Bool) (hcfg
   unfold readAttrs
   have hclear : (G l (body ++ 41 :: (sp ++ 59 :: rest)) sk).clear = G l (body ++ 41 :: (sp ++ 59 :: rest)) sk := rfl
   simp only [bind, Except.bind, pure, Except.pure, hclear]
-  rw [recoverScan_spec _ body hb sp hsp _ false c l rest sk
+  rw [recoverScan_spec _ _ body hb sp hsp _ false c l rest sk
     (by simp only [List.length_append, List.length_cons]; omega) hc]
   simp only [hcfg, G_good, Bool.and_self, if_true]
   rw [show IStream.putback 59 (G (59 :: (sp.reverse ++ 41 :: (body.reverse ++ l))) rest sk) =
